@@ -1337,11 +1337,12 @@ func (x *Exec) binop(st *State, op token.Token, xv, yv Value, rt types.Type, pos
 			}
 		}
 		if at.Sort == SInt {
-			// small-constant masks on non-negative ints: x & (2^k-1) == x mod 2^k
+			// small-constant masks: x & (2^k-1) == x mod 2^k (Euclidean mod; in two's
+			// complement this also holds for negative x: -1 & 1 == 1 == (-1) mod 2)
 			if op == token.AND {
-				if bv, ok := bt.IntVal(); ok && bv.Sign() > 0 {
+				if bv, ok := bt.IntVal(); ok && bv.Sign() > 0 && bv.BitLen() < 62 {
 					p := new(big.Int).Add(bv, big.NewInt(1))
-					if new(big.Int).And(p, bv).Sign() == 0 && isUnsignedType(rt) {
+					if new(big.Int).And(p, bv).Sign() == 0 {
 						return TV{App("mod", SInt, at, IntLitBig(p)), rt}
 					}
 				}
@@ -1613,8 +1614,7 @@ func (x *Exec) convert(st *State, v Value, from, to types.Type, pos token.Pos) V
 			f, _ := new(big.Float).SetInt(val).Float64()
 			return TV{fpLit(f), to}
 		}
-		x.declareI2F()
-		return TV{App("i2f", SF64, tv.T), to}
+		return TV{x.i2fTerm(tv.T), to}
 	case fs.IsBV() && ts.IsFP():
 		// unsigned machine integer to float: correctly rounded by SMT-LIB's to_fp_unsigned
 		return TV{App("(_ to_fp_unsigned "+strings.TrimSuffix(strings.TrimPrefix(string(ts), "(_ FloatingPoint "), ")")+")", ts, Atom("RNE", "RoundingMode"), tv.T), to}
@@ -1623,7 +1623,7 @@ func (x *Exec) convert(st *State, v Value, from, to types.Type, pos token.Pos) V
 		t := App("f2i", SInt, tv.T)
 		st.assume(x.ti.WF(t, to, nil)...)
 		// exact for values in range: truncation toward zero
-		x.assumeNote("float64→int conversion is uninterpreted apart from truncation bounds")
+		x.assumeNote("float64→int conversion is an uninterpreted function of the float; converting its result back, float64(int(f)), is exactly f rounded toward zero to an integral value for |f| <= 2^62")
 		return TV{t, to}
 	case fs.IsFP() && ts.IsFP():
 		if fs == ts {
@@ -1852,6 +1852,21 @@ func sortedHeapKeys(m map[string]*Term) []string {
 	}
 	sort.Strings(ks)
 	return ks
+}
+
+// i2fTerm is float64(t) for an integer term t.  float64(int(f)) is exactly f
+// rounded toward zero to an integral value whenever int(f) is defined (|f| within
+// the int64 range): the truncated value of a float is itself a float.
+func (x *Exec) i2fTerm(t *Term) *Term {
+	x.declareI2F()
+	app := App("i2f", SF64, t)
+	if t.Op == "f2i" && len(t.Args) == 1 && t.Args[0].Sort == SF64 {
+		f := t.Args[0]
+		lim := fpLit(4611686018427387904) // 2^62
+		inRange := And(App("fp.leq", SBool, App("fp.neg", SF64, lim), f), App("fp.leq", SBool, f, lim))
+		return App("ite", SF64, inRange, App("fp.roundToIntegral", SF64, Atom("RTZ", "RoundingMode"), f), app)
+	}
+	return app
 }
 
 // declareI2F: float64(int) is an uninterpreted function that never yields NaN or
